@@ -284,10 +284,16 @@ func runC13(c *C13Case) C13Obs {
 				case "cookie":
 					_, got = o.CookieAfter[p.Name]
 				}
-				if !got {
-					o.Violations = append(o.Violations, "default-not-populated:"+p.In)
+				kind := ""
+				if _, isObj := p.Schema.Default.(map[string]any); isObj {
+					kind = ":object-default"
+				}
+				if !got && kind != "" && c13DefaultIs(p.Schema.Default, o, p) {
+					// an exploded object default is carried by its members' names
+				} else if !got {
+					o.Violations = append(o.Violations, "default-not-populated:"+p.In+kind)
 				} else if !c13DefaultIs(p.Schema.Default, o, p) {
-					o.Violations = append(o.Violations, "populated-value-is-not-the-default:"+p.In)
+					o.Violations = append(o.Violations, "populated-value-is-not-the-default:"+p.In+kind)
 				}
 			}
 		}
@@ -346,6 +352,22 @@ func c13DefaultIs(d any, o C13Obs, p C13Param) bool {
 		}
 		return false
 	}
+	if obj, ok := d.(map[string]any); ok {
+		// a flat object default: its members as the serialisation method writes them - exploded into the
+		// query as member=value, or under the parameter's name as m1,v1,m2,v2 (m1=v1,m2=v2 exploded)
+		keys := sortedKeys(obj)
+		var flat, pairs []string
+		exploded := true
+		for _, k := range keys {
+			t := c13Text(obj[k])
+			flat = append(flat, k, t)
+			pairs = append(pairs, k+"="+t)
+			if p.In != "query" || len(o.QueryAfter[k]) != 1 || o.QueryAfter[k][0] != t {
+				exploded = false
+			}
+		}
+		return exploded || (len(vals) == 1 && (vals[0] == strings.Join(flat, ",") || vals[0] == strings.Join(pairs, ",")))
+	}
 	return true
 }
 
@@ -359,6 +381,8 @@ func (c *C13Case) defaultKinds() string {
 		switch p.Schema.Default.(type) {
 		case []any:
 			kinds[":array-default-"+p.In] = true
+		case map[string]any:
+			return ":object-default"
 		case float64:
 			if f := p.Schema.Default.(float64); f != float64(int64(f)) || f > 1e15 {
 				kinds[":float-default"] = true
@@ -738,6 +762,9 @@ func c13Directed() []C13Case {
 			C13Case{CT: "application/json", Skip: skip, Params: []C13Param{{In: "query", Name: "q", Explode: bp(true), Schema: &GSchema{HasTypes: true, Types: []string{"array"}, Items: &GSchema{HasTypes: true, Types: []string{"integer"}}, Default: []any{1.0, 2.0}}}}},
 			C13Case{CT: "application/json", Skip: skip, Params: []C13Param{{In: "query", Name: "q", Explode: bp(false), Schema: &GSchema{HasTypes: true, Types: []string{"array"}, Items: &GSchema{HasTypes: true, Types: []string{"integer"}}, Default: []any{1.0, 2.0}}}}},
 			// defaults whose shortest float text is in exponent form: the forwarded text must still be read as the declared type
+			// an object default (deepObject query, exploded form query, header): written so that it reads back
+			C13Case{CT: "application/json", Skip: skip, Params: []C13Param{{In: "query", Name: "o", Schema: &GSchema{HasTypes: true, Types: []string{"object"}, Props: map[string]*GSchema{"a": {HasTypes: true, Types: []string{"integer"}}}, Default: map[string]any{"a": 1.0}}}}},
+			C13Case{CT: "application/json", Skip: skip, Params: []C13Param{{In: "header", Name: "X-O", Schema: &GSchema{HasTypes: true, Types: []string{"object"}, Props: map[string]*GSchema{"a": {HasTypes: true, Types: []string{"integer"}}}, Default: map[string]any{"a": 1.0}}}}},
 			C13Case{CT: "application/json", Skip: skip, Params: []C13Param{{In: "query", Name: "big", Schema: intD(1000000)}, {In: "header", Name: "X-Big", Schema: intD(123456789)}, {In: "cookie", Name: "cbig", Schema: intD(100000000000)}}},
 			C13Case{CT: "application/json", Skip: skip, Params: []C13Param{{In: "query", Name: "ids", Explode: bp(true), Schema: &GSchema{HasTypes: true, Types: []string{"array"}, Items: &GSchema{HasTypes: true, Types: []string{"integer"}}, Default: []any{1000000.0, 2.0}}}}},
 			C13Case{CT: "application/json", Skip: skip, Params: []C13Param{{In: "query", Name: "x", Schema: &GSchema{HasTypes: true, Types: []string{"number"}, Default: 1e21}}, {In: "query", Name: "y", Schema: &GSchema{HasTypes: true, Types: []string{"number"}, Default: 0.000001}}}},
